@@ -15,6 +15,8 @@ if REPO not in sys.path:
 
 import mock  # noqa: E402
 
+from . import guard  # noqa: E402
+
 from octoprint_excluderegion.ExcludeRegionState import ExcludeRegionState, IGNORE_GCODE_CMD  # noqa
 from octoprint_excluderegion.GcodeHandlers import GcodeHandlers  # noqa: E402
 from octoprint_excluderegion.GcodeParser import GcodeParser  # noqa: E402
@@ -121,6 +123,8 @@ def split_cmd(cmd):
 
 def err_kind(exc):
     """Map an exception to the small enum shared with the model."""
+    if isinstance(exc, guard.ImplTimeout):
+        return "hang"
     if isinstance(exc, ZeroDivisionError):
         return "zerodiv"
     if isinstance(exc, TypeError):
@@ -141,7 +145,8 @@ def call_gcode(h, cmd, gcode=None, subcode=None):
     if gcode is None:
         return ("none",)
     try:
-        r = h.handleGcode(cmd, gcode, subcode)
+        with guard.watchdog():
+            r = h.handleGcode(cmd, gcode, subcode)
     except Exception as exc:  # pylint: disable=broad-except
         return ("err", err_kind(exc))
     if r is None:
@@ -154,7 +159,8 @@ def call_gcode(h, cmd, gcode=None, subcode=None):
 def call_at(h, cmd, params, streaming=False):
     comm = Comm(streaming)
     try:
-        handled = h.handleAtCommand(comm, cmd, params)
+        with guard.watchdog():
+            handled = h.handleAtCommand(comm, cmd, params)
     except Exception as exc:  # pylint: disable=broad-except
         return ("err", err_kind(exc))
     return ("at", bool(handled), list(comm.sent))
